@@ -8,7 +8,7 @@ Op lines (strings percent-encoded; `%n` = unset):
                                                                      (only before the first call / decide)
   decide host=<str> hdr=<...>                                        (TrafficFilter.is_allowed alone)
   adv d=<ticks>                                                      (1 tick = 1/8 s)
-  call host=<str> hdr=<-|other|v:<str>|K:<str>> gw=<ok|connerr|connsub|errhdr|errhdr:<value>|errHDR:<value>|ERRHDR:<value>|appexc> direct=<ok|exc>
+  call [lib=<requests|aiohttp|tornado>] host=<str> hdr=<-|other|v:<str>|K:<str>> gw=<ok|connerr|connsub|errhdr|errhdr:<value>|errHDR:<value>|ERRHDR:<value>|appexc|exc:<lib>.<Class>> direct=<ok|exc>
        (errhdr = errhdr:2; errHDR / ERRHDR: the same header spelled X-Lunar-Error / X-LUNAR-ERROR)
   probe <str>
 -/
@@ -55,7 +55,40 @@ def parseHdr (w : String) : Option Hdr :=
   else if w.startsWith "K:" then some .absent      -- differently-cased key: not seen by the filter
   else none
 
-def parseGw (w : String) : Option GwOut :=
+/-- Exception classes of the three client libraries, by what the hooks register with the shared
+    fail-safe today (`handle_on`): `true` = a gateway-side failure (the class or an ancestor of it is
+    registered: counted, swallowed, direct fallback), `false` = not registered (propagates to the
+    application, not counted).  requests: `ConnectionError` and descendants; aiohttp:
+    `ClientConnectionError` and descendants; tornado: `HTTPClientError` and descendants, `gaierror`. -/
+def excClasses : List (String × Bool) := [
+  ("requests.ConnectionError", true), ("requests.ProxyError", true), ("requests.SSLError", true),
+  ("requests.ConnectTimeout", true),
+  ("requests.RequestException", false), ("requests.Timeout", false), ("requests.ReadTimeout", false),
+  ("requests.HTTPError", false), ("requests.TooManyRedirects", false),
+  ("requests.ChunkedEncodingError", false), ("requests.ContentDecodingError", false),
+  ("requests.InvalidURL", false), ("requests.MissingSchema", false),
+  ("aiohttp.ClientConnectionError", true), ("aiohttp.ClientOSError", true),
+  ("aiohttp.ClientConnectorError", true), ("aiohttp.ClientProxyConnectionError", true),
+  ("aiohttp.ClientSSLError", true), ("aiohttp.ClientConnectorSSLError", true),
+  ("aiohttp.ClientConnectorCertificateError", true), ("aiohttp.ServerConnectionError", true),
+  ("aiohttp.ServerDisconnectedError", true), ("aiohttp.ServerTimeoutError", true),
+  ("aiohttp.ServerFingerprintMismatch", true),
+  ("aiohttp.ClientError", false), ("aiohttp.ClientResponseError", false),
+  ("aiohttp.ContentTypeError", false), ("aiohttp.ClientPayloadError", false),
+  ("aiohttp.InvalidURL", false), ("aiohttp.TooManyRedirects", false), ("aiohttp.TimeoutError", false),
+  ("tornado.HTTPClientError", true), ("tornado.HTTPTimeoutError", true),
+  ("tornado.HTTPStreamClosedError", true), ("tornado.CurlError", true), ("tornado.gaierror", true),
+  ("tornado.ValueError", false)]
+
+def parseGw (lib : String) (w : String) : Option GwOut :=
+  if w.startsWith "exc:" then
+    let name := (w.drop 4).toString
+    if !name.startsWith (lib ++ ".") then none else
+    match excClasses.find? (fun p => p.1 == name) with
+    | some (_, true) => some .connErr
+    | some (_, false) => some .appExc
+    | none => none
+  else
   if w == "ok" then some .ok else if w == "connerr" || w == "connsub" then some .connErr
   else if w == "errhdr" then some (.errHdr ['2'])
   else if w.startsWith "errhdr:" || w.startsWith "errHDR:" || w.startsWith "ERRHDR:" then
@@ -66,9 +99,13 @@ def parseDir (w : String) : Option DirOut :=
   if w == "ok" then some .ok else if w == "exc" then some .exc else none
 
 def parseCall (ws : List String) : Option CallIn := do
+  let lib := (kv ws "lib").getD "requests"
+  if !(lib == "requests" || lib == "aiohttp" || lib == "tornado") then none
   let h ← kv ws "host"
-  let hd ← (kv ws "hdr").bind parseHdr
-  let g ← (kv ws "gw").bind parseGw
+  let hw ← kv ws "hdr"
+  -- the tornado hook lower-cases the header keys before asking the filter
+  let hd ← parseHdr (if lib == "tornado" && hw.startsWith "K:" then "v:" ++ (hw.drop 2).toString else hw)
+  let g ← (kv ws "gw").bind (parseGw lib)
   let d ← (kv ws "direct").bind parseDir
   pure ⟨(pctDec h).toList, hd, g, d⟩
 
